@@ -208,7 +208,9 @@ def run(ctx):
                     ctx.fail("parse-lang", "%s::parse(%r) = %s, component-wise meaning %s" % (nm, s, o, exp), pcases[k:k + 4], [od, oh, ou, orw], str(exp))
         elif not plain.match(s):
             # neither Y.M.D[.H] nor a plain integer: a leading '+' year is the only tolerated extra
-            if not (s[:1] == b"+" and shape.match(s[1:])):
+            # tolerated extras (all inside the accepted language proved in C13_parse_lang): a leading '+' year, and a
+            # sign without digits, which to_i64_t reads as 0 ("-.1.1" is year 0 -- the documented "+" -> 0 quirk of C11)
+            if not ((s[:1] == b"+" and shape.match(s[1:])) or (s[:1] in (b"+", b"-") and shape.match(b"0" + s[1:]))):
                 for nm, got, o in (("Date", gd, od), ("DateHour", gh, oh), ("UniformDate", gu, ou), ("RawDate", gr, orw)):
                     if got is not None:
                         ctx.fail("parse-garbage", "%s::parse(%r) accepted: %s" % (nm, s, o), pcases[k:k + 4], [od, oh, ou, orw], "none")
